@@ -16,6 +16,7 @@ from mc.runner import Result
 
 PROPERTY = "C10"
 LEVEL = "model_checking"
+TECHNIQUE = "bounded exhaustive enumeration of values x labels x chunkings (all prefix-tree shapes) against a sequential per-group scan"
 ENGINE = "E1"
 RULE = (
     "state = (scan, dtype, label tuple, chunking composition | in-memory, batch blocks, value tuple); every state is "
